@@ -81,12 +81,15 @@ def check(run, prog, tier):
     run.rule("C15-E1", "scratch state is reset before use", minimum=3)
     run.rule("C15-E2", "settings are not carried between calls", minimum=9)
     run.rule("C15-E3", "inputs are not mutated (effect analysis)", minimum=40)
+    run.rule("C15-E5", "builders return stored results only under a key that covers every argument the result "
+                       "depends on", minimum=5)
     run.rule("C15-E4", "temporary modifications of the Hamiltonian are undone, in nesting order", minimum=7)
     E = Effects(prog, depth=4)
     rule_E1(run, prog)
     rule_E2(run, prog, E)
     rule_E3(run, prog, E)
     rule_E4(run, prog)
+    rule_E5(run, prog)
 
 
 class _Proxy:
@@ -331,6 +334,60 @@ def rule_E3(run, prog, E):
             run.obligation(rid, f.short, ok, key="field-rwa-paired",
                            message="every set_rwa on the field object must be paired with restore_rwa on the "
                                    "same object before the time loop", loc=f.loc())
+
+
+def rule_E5(run, prog):
+    """'Repeating the call with the same inputs returns the same result whatever was computed in
+    between.'  A builder of the open system that hands back something it keeps on self from an earlier
+    call (self.RelaxationTensor, ...) makes the result depend on that earlier call unless the guard of
+    the early return tests every argument that the computation below it reads."""
+    rid = "C15-E5"
+    osys = prog.cls("quantarhei.builders.opensystem.OpenSystem")
+    n = 0
+    for name, f in sorted(osys.methods.items()):
+        if not name.startswith("get_"):
+            continue
+        params = [a.arg for a in f.node.args.args if a.arg != "self"] + [a.arg for a in f.node.args.kwonlyargs]
+        if not params:
+            continue
+        n += 1
+        stored = {t_.attr for x in walk_no_nested(f.node) if isinstance(x, ast.Assign) for t_ in x.targets
+                  if isinstance(t_, ast.Attribute) and isinstance(t_.value, ast.Name) and t_.value.id == "self"}
+        pm = parents_map(f.node)
+        used = {p_: [x for x in walk_no_nested(f.node) if isinstance(x, ast.Name) and x.id == p_ and isinstance(x.ctx, ast.Load)]
+                for p_ in params}
+        bad = []
+        for r in [x for x in walk_no_nested(f.node) if isinstance(x, ast.Return) and x.value is not None]:
+            elts = r.value.elts if isinstance(r.value, ast.Tuple) else [r.value]
+            kept = [e for e in elts if isinstance(e, ast.Attribute) and isinstance(e.value, ast.Name) and e.value.id == "self"
+                    and e.attr in stored]
+            if not kept:
+                continue
+            # a return of what this very call has just stored is not a cache: some store of the attribute precedes it
+            fresh_ = all(any(isinstance(x, ast.Assign) and x.lineno < r.lineno and any(
+                isinstance(t_, ast.Attribute) and norm(t_) == norm(e) for t_ in x.targets) for x in walk_no_nested(f.node))
+                for e in kept)
+            guards = []
+            node = r
+            while node in pm:
+                par = pm[node]
+                if isinstance(par, ast.If):
+                    guards.append(par.test)
+                node = par
+            if fresh_ and not guards:
+                continue
+            tested = {x.id for g in guards for x in ast.walk(g) if isinstance(x, ast.Name)}
+            # arguments read by the code after this return (the computation it skips)
+            later = sorted(p_ for p_ in params if any(u.lineno > r.lineno for u in used[p_]) and p_ not in tested)
+            if later and not fresh_:
+                bad.append((r, [norm(e) for e in kept], later))
+        run.obligation(rid, f.short, not bad, key="stored-result-key",
+                       message="%s returns %s kept from an earlier call although the computation it skips depends on the "
+                               "arguments %s, which the guard does not test" % (
+                                   f.short, bad[0][1] if bad else "", bad[0][2] if bad else ""),
+                       loc=f.loc(bad[0][0]) if bad else f.loc(), sample={"builder": f.short, "arguments": params[:8]})
+    if n < 5:
+        raise AnalysisError("only %d builders with arguments found on OpenSystem" % n)
 
 
 def rule_E4(run, prog):
